@@ -25,6 +25,25 @@ fn main() {
         trippy_verif::simnet::run::dump(&log);
         return;
     }
+    if args.first().map(String::as_str) == Some("--layout-probe") {
+        // vcheck --layout-probe <fixed columns of Min(7)> <width> <iterations> [host]
+        use ratatui::layout::{Constraint, Flex, Layout, Rect};
+        let n: usize = args[1].parse().unwrap();
+        let width: u16 = args[2].parse().unwrap();
+        let iters: u16 = args[3].parse().unwrap();
+        let host = args.get(4).is_some();
+        let fixed_total: u16 = 4 + 7 * n as u16;
+        let mut c = vec![Constraint::Min(4)];
+        if host {
+            c.push(Constraint::Min(width.saturating_sub(fixed_total)));
+        }
+        c.extend(std::iter::repeat(Constraint::Min(7)).take(n));
+        for y in 0..iters {
+            let _ = Layout::horizontal(c.clone()).flex(Flex::Start).spacing(1).split(Rect::new(0, y, width, 1));
+        }
+        println!("ok");
+        return;
+    }
     if args.first().map(String::as_str) == Some("--gen-corpus") {
         let dir = std::path::PathBuf::from(&args[1]);
         std::fs::create_dir_all(&dir).expect("mkdir");
@@ -104,6 +123,31 @@ fn main() {
             Tier::Quick => 1500,
             Tier::Thorough => 6 * 3600,
         });
+    // stuck-case monitor: a watched case that does not return is written out and reported as
+    // inconclusive (exit 2) - a deterministic hang is then examined through its replay file
+    {
+        let out = ctx.out_dir.clone();
+        let prop = ctx.prop.clone();
+        std::thread::spawn(move || loop {
+            std::thread::sleep(std::time::Duration::from_millis(500));
+            let limit = engine::WATCH_S.load(std::sync::atomic::Ordering::Relaxed);
+            if limit == 0 {
+                continue;
+            }
+            let g = engine::IN_FLIGHT.lock().unwrap();
+            for slot in g.iter().flatten() {
+                if slot.0.elapsed().as_secs() >= limit {
+                    let dir = out.join("replays");
+                    let _ = std::fs::create_dir_all(&dir);
+                    let path = dir.join(format!("{prop}-stuck-{:016x}.json", engine::hash64(&slot.1)));
+                    let body = format!("{{\"property\": \"{prop}\", \"sub\": \"stuck\", \"sig\": \"stuck\", \"msg\": \"case did not return within {limit} s\", \"case\": {}}}", slot.1);
+                    let _ = std::fs::write(&path, body);
+                    eprintln!("INCONCLUSIVE: a case did not return within {limit} s; written to {}", path.display());
+                    std::process::exit(2);
+                }
+            }
+        });
+    }
     std::thread::spawn(move || {
         std::thread::sleep(std::time::Duration::from_secs(budget_s));
         eprintln!("INCONCLUSIVE: wall-clock budget of {budget_s}s exceeded");
